@@ -54,9 +54,16 @@ class LCMKernel(Kernel):
         )
 
     def forward(self, x1, x2, **params):
-        res = self.covar_module_list[0].forward(x1, x2, **params)
-        for m in self.covar_module_list[1:]:
-            res += m.forward(x1, x2, **params)
+        # The components are evaluated through forward(), which bypasses the active_dims selection of Kernel.__call__
+        # (each MultitaskKernel adopts the active_dims of its data kernel): select the columns here.
+        res = None
+        for m in self.covar_module_list:
+            x1_, x2_ = x1, x2
+            if m.active_dims is not None:
+                x1_ = x1.index_select(-1, m.active_dims)
+                x2_ = x2.index_select(-1, m.active_dims)
+            term = m.forward(x1_, x2_, **params)
+            res = term if res is None else res + term
         return res
 
     def num_outputs_per_input(self, x1, x2):
